@@ -451,7 +451,16 @@ func (v *Validators) PayRewardsV5Fix(height uint64, period int64) (moreRewards *
 	}
 
 	for _, validator := range vals {
+		// a validator dropped in this block (byzantine evidence, absence, changed
+		// public key) has already returned its accumulated reward to the pool in
+		// EndBlock; its total stake may be zero and its candidate gone or renamed
+		if validator.IsToDrop() {
+			continue
+		}
 		candidate := v.bus.Candidates().GetCandidate(validator.PubKey)
+		if candidate == nil {
+			continue
+		}
 
 		totalReward := big.NewInt(0).Set(validator.GetAccumReward())
 		remainder := big.NewInt(0).Set(validator.GetAccumReward())
